@@ -218,6 +218,8 @@ def flatten_declared(cfg: Dict[str, Any]) -> Dict[str, List[Dict[str, Any]]]:
                 if cat == "service" and dflt.get("service_fix_duration") is not None:
                     own = (s.get("options") or {}).get("fixing_duration")
                     fs.append(F("opt", [h, name, "fixing_duration"], ["*" if own is not None else _optval("fixing_duration", dflt["service_fix_duration"])]))
+                if cat == "service" and dflt.get("service_restart_duration") is not None:
+                    fs.append(F("opt", [h, name, "restart_duration"], [_optval("restart_duration", dflt["service_restart_duration"])]))
         # users
         for u in n.get("users") or []:
             fs.append(F("user", [h, norm(u.get("username"))], [norm(u.get("password")), _opt(u, "is_admin")]))
@@ -353,6 +355,8 @@ def flatten_built(game) -> Dict[str, List[Dict[str, Any]]]:
                     else:
                         ODDITIES[f"{type(sw).__name__}.{k} is a {type(a).__name__}, not data"] = ODDITIES.get(
                             f"{type(sw).__name__}.{k} is a {type(a).__name__}, not data", 0) + 1
+            if "restart_duration" not in cfg_fields and hasattr(sw, "restart_duration") and _plain(getattr(sw, "restart_duration")):
+                fs.append(F("opt", [h, str(name), "restart_duration"], [_optval("restart_duration", sw.restart_duration)]))
         for coll in (node.services, node.applications):
             for sw in coll.values():
                 if id(sw) not in eff_ids:
